@@ -4,7 +4,8 @@
    input is a list of complete lines ([llen l] bytes each, '\n' included) plus [tail] bytes
    without '\n'; the reader follows ANY schedule [sch] of read sizes. *)
 From Coq Require Import ZArith List Bool.
-From RM Require Import Base.Word C08.Model C11.Model C09.Model C09.Grammar C09.Driver C09.Proofs C09.ProofsBytes.
+From RM Require Import Base.Word C08.Model C11.Model C09.Model C09.Grammar C09.Driver C09.Proofs C09.ProofsBytes C09.ProofsFinish C09.ProofsFinal C09.ProofsTrace.
+From RM Require C09.Pins.
 Import ListNotations.
 Open Scope Z_scope.
 
@@ -155,3 +156,91 @@ Example c09_known_overlong_header_misattributed :
   = (0, 1, [((16, 19), [(32, 35)])]).
 Proof. vm_compute. reflexivity. Qed.
 Print Assumptions c09_known_overlong_header_misattributed.
+
+(* ================================================================== round 4 *)
+
+(* The WHOLE parse never panics: the loop ends with Ok or Err (c09_total) and, on Ok, SymbolParser::finish —
+   finish_item for every FUNC / STACK CFI INIT item (line tables through C08's range-map builder), the sorts,
+   insert_win_stack_info with its `last_info.memory_range().unwrap()`, the four `try_from_iter(..).unwrap()` —
+   returns a table: no Panic site of [finish] is reachable from a parser state the line recognisers can build
+   (hex_str <= 8 / 16 digits, decimal_u32 <= u32::MAX keep every numeric field in range: [pst_wf]). *)
+Theorem c09_parse_never_panics :
+  forall (lines : list rle) (tail : Z) (sch : list Z),
+    exists r s t, drive_c lines tail sch = Ret (r, s) /\ table_of r = Ret t.
+Proof. exact parse_total. Qed.
+Print Assumptions c09_parse_never_panics.
+
+Theorem c09_parse_never_panics_bytes :
+  forall (bytes : list Z) (sch : list Z),
+    exists r s t, drive_c (map to_rle (fst (split_bytes bytes [])))
+                          (Z.of_nat (length (snd (split_bytes bytes [])))) sch = Ret (r, s) /\ table_of r = Ret t.
+Proof. exact parse_total_bytes. Qed.
+Print Assumptions c09_parse_never_panics_bytes.
+
+(* [finish] is total on every well-formed parser state, and the recognisers only build well-formed states *)
+Theorem c09_finish_total :
+  (forall p, pst_wf p -> exists t, finish p = Ret t) /\
+  pst_wf init_pst /\
+  (forall p s p', pst_wf p -> recog_pst p s = inl p' -> pst_wf p' /\ p_lines p' = p_lines p + 1).
+Proof.
+  split; [exact finish_total|]. split; [exact init_pst_wf|].
+  intros p s p' W H. split; [exact (recog_pst_wf p s p' W H)|exact (recog_pst_lines p s p' H)].
+Qed.
+Print Assumptions c09_finish_total.
+
+(* The u64 counters.  `total_consumed += amount as u64` and `parser.lines += 1` are unbounded additions in the
+   model; at every loop head and at the end total_consumed <= |input| and parser.lines <= number of lines <= |input|,
+   and both only grow: for an input of fewer than 2^64 bytes no addition overflows in either build profile. *)
+Theorem c09_counters_fit_u64 :
+  forall (lines : list rle) (tail : Z) (sch : list Z),
+    input_len rle cllen lines tail < two64 ->
+    (forall p s,
+        iter_pos rle cllen pst recog_pst bump_pst lineno_pst p (init_st rle cllen pst init_pst lines tail sch) = Next s ->
+        0 <= total s < two64 /\ 0 <= p_lines (ps s) < two64) /\
+    (forall r s, drive_c lines tail sch = Ret (r, s) ->
+        0 <= total s < two64 /\ 0 <= p_lines (ps s) < two64 /\ cbsum s = total s).
+Proof.
+  intros lines tail sch Hlt. pose proof (lines_le_bytes lines tail) as Hl. split.
+  - intros p s H. destruct (counters_reach lines tail sch p s H) as [[? ?] [? ?]]. repeat split; Lia.lia.
+  - intros r s H. destruct (counters_final lines tail sch r s H) as [[? ?] [[? ?] ?]]. repeat split; Lia.lia.
+Qed.
+Print Assumptions c09_counters_fit_u64.
+
+(* The traced run (what the correspondence compares event by event: every read() as (space offered, bytes
+   returned), every callback as slice length) goes through exactly the states of the run the theorems are about. *)
+Theorem c09_trace_is_run :
+  forall p s a, fst (iter_tr p s a) = iter_pos rle cllen pst recog_pst bump_pst lineno_pst p s.
+Proof. exact iter_tr_run. Qed.
+Print Assumptions c09_trace_is_run.
+
+(* The model against the source.  coq/Gen/SymFileLoop.v is regenerated from sym_file/mod.rs and from the circular
+   crate that Cargo.lock pins on every run (translate/symfile_loop.py: constants, every condition and flag
+   assignment of both loops, min / shift conditions of circular::Buffer; it aborts if the statement skeleton
+   changes).  One iteration of the model's loop IS the iteration assembled from those pieces — for parse and for
+   parse_async. *)
+Theorem c09_source_pins :
+  (INITIAL_CAP = Pins.G.INITIAL_BUFFER_CAPACITY /\ MAX_CAP = Pins.G.MAX_BUFFER_CAPACITY /\
+   HALF_CAP = Pins.G.MAX_BUFFER_CAPACITY / 2) /\
+  (forall b n, consume b n = Pins.consume_src b n /\ fill b n = Pins.fill_src b n /\
+               grow b n = Pins.grow_src b n /\ shift b = Pins.shift_src b) /\
+  (forall (L : Type) (llen : L -> Z) (PS : Type) (recog : PS -> L -> PS + Z) (bump : PS -> PS) (lineno : PS -> Z) s,
+      step L llen PS recog bump lineno s = Pins.step_src L llen PS recog bump lineno s /\
+      step_async L llen PS recog bump lineno s = Pins.step_async_src L llen PS recog bump lineno s).
+Proof. split; [exact Pins.pin_constants|]. split; [exact Pins.pin_circular|exact Pins.pin_step]. Qed.
+Print Assumptions c09_source_pins.
+
+(* non-vacuity: STACK WIN records that overlap (the branch with the unwrap) and a FUNC whose line table needs the
+   range-map builder: finish returns a table; 2 frame-data entries after the length fix-up *)
+Example c09_nonvacuous_finish :
+  let o := run_case [ex_module;
+                     map (fun b => (b, 1)) [83;84;65;67;75;32;87;73;78;32;52;32;49;48;32;49;48;32;48;32;48;32;48;32;48;32;48;32;48;32;49;32;120];  (* STACK WIN 4 10 10 0 0 0 0 0 0 1 x *)
+                     map (fun b => (b, 1)) [83;84;65;67;75;32;87;73;78;32;52;32;49;52;32;99;32;48;32;48;32;48;32;48;32;48;32;48;32;49;32;121]]     (* STACK WIN 4 14 c 0 0 0 0 0 0 1 y *)
+                    0 [] in
+  (o_kind o, match o_table o with Some t => map fst (t_win_fd t) | None => [] end) = (0, [(16, 19); (20, 31)]).
+Proof. vm_compute. reflexivity. Qed.
+
+(* non-vacuity of the trace: a 200000-byte line: 4 grows to 160 KiB, discard iterations, one recovery *)
+Example c09_nonvacuous_trace :
+  let t := run_trace [ex_module; [(97, 200000)]; ex_file] 0 [] in
+  (tr_grows t, tr_recovered t, 0 <? tr_discards t, 0 <? tr_shifts t, 0 <? tr_full_reads t) = (4, 1, true, true, true).
+Proof. vm_compute. reflexivity. Qed.
